@@ -7,3 +7,18 @@ Import ListNotations.
 Theorem C17_vm_fuel_binary_is_unary : forall p ch cmds, run_vm p ch cmds = run_vm_n (Pos.to_nat p) ch cmds.
 Proof. exact run_vm_binary_unary. Qed.
 Print Assumptions C17_vm_fuel_binary_is_unary.
+
+(* Hardware scaling (ProgramEntry._transform_linspace_commands), for ALL command lists (any loops, any registers):
+   running the transformed commands gives, step for step, the history of the untransformed run with channel k
+   replaced by (v - offset_k) / amplitude_k; same times, same total duration, same error if any. *)
+Theorem C17_scaling : forall tr cs cs' fuel channels,
+  transform tr cs = Ok cs' ->
+  outcome_scaled tr (run_vm_n fuel channels cs) (run_vm_n fuel channels cs').
+Proof. exact run_vm_scaled. Qed.
+Print Assumptions C17_scaling.
+
+(* non-vacuity: a transformed looping program that runs to completion *)
+Example C17_scaling_nonvacuous :
+  let cs := [CSet 0 (1#2) [5%Z]; CWait 1; CLabel 0%Z 2%Z; CInc 0 (1#4) [5%Z]; CWait 1; CJmp 0%Z] in
+  exists cs' h t, transform [(2, 1#4)] cs = Ok cs' /\ run_vm_n 20 1 cs' = Ok (h, t) /\ length h = 3%nat.
+Proof. cbv zeta. eexists; eexists; eexists. split; [reflexivity|]. split; [vm_compute; reflexivity|reflexivity]. Qed.
